@@ -77,7 +77,7 @@ def parseRBlock : SExp → Option Op.Ready.Block
            rules := ← rs.mapM parseRRule }
   | _ => none
 
-def ofErr : Op.Ready.Err → SExp
+def ofReadyErr : Op.Ready.Err → SExp
   | .noInputs => atom "noInputs" | .noOutputs => atom "noOutputs" | .noBlocks => atom "noBlocks"
   | .noTerms o => list [atom "noTerms", ofNat o] | .noDefuzzifier o => list [atom "noDefuzzifier", ofNat o]
   | .noAggregation o => list [atom "noAggregation", ofNat o] | .noRules b => list [atom "noRules", ofNat b]
@@ -145,7 +145,7 @@ def rules : List SExp → Option SExp
   -- C19
   | [atom "ready", n, list outs, list blocks] => do
       let e : Op.Ready.Engine := { inputs := ← n.asNat, outputs := ← outs.mapM parseROutput, blocks := ← blocks.mapM parseRBlock }
-      pure (list [list ((Op.Ready.isReady e).map ofErr), list ((Op.Ready.isReadyPinned e).map ofErr),
+      pure (list [list ((Op.Ready.isReady e).map ofReadyErr), list ((Op.Ready.isReadyPinned e).map ofReadyErr),
                   ofProcErr (Op.Ready.processError e)])
   | _ => none
 
